@@ -55,6 +55,48 @@ func fullPromise(id string, sortId int64) *promise.Promise {
 	}
 }
 
+// statedPromise is a full promise in the given state.
+func statedPromise(id string, sortId int64, st promise.State) *promise.Promise {
+	p := fullPromise(id, sortId)
+	p.State = st
+	if st == promise.Pending {
+		p.CompletedOn, p.IdempotencyKeyForComplete, p.Value = nil, nil, promise.Value{}
+	}
+	return p
+}
+
+// kernelStates lists the states of the promises of a programmed kernel answer, as the numbers of
+// pkg/promise (1 pending, 2 resolved, 4 rejected, 8 canceled, 16 timed out), in the order in which
+// the front ends render them: arrays in order, the promises of a claim by key (leaf before root).
+func kernelStates(res *t_api.Response) []int {
+	ps := []*promise.Promise{}
+	switch res.Kind {
+	case t_api.ReadPromise:
+		ps = append(ps, res.ReadPromise.Promise)
+	case t_api.SearchPromises:
+		ps = append(ps, res.SearchPromises.Promises...)
+	case t_api.CreatePromise:
+		ps = append(ps, res.CreatePromise.Promise)
+	case t_api.CreatePromiseAndTask:
+		ps = append(ps, res.CreatePromiseAndTask.Promise)
+	case t_api.CompletePromise:
+		ps = append(ps, res.CompletePromise.Promise)
+	case t_api.CreateCallback:
+		ps = append(ps, res.CreateCallback.Promise)
+	case t_api.CreateSubscription:
+		ps = append(ps, res.CreateSubscription.Promise)
+	case t_api.ClaimTask:
+		ps = append(ps, res.ClaimTask.LeafPromise, res.ClaimTask.RootPromise)
+	}
+	out := []int{}
+	for _, p := range ps {
+		if p != nil {
+			out = append(out, int(p.State))
+		}
+	}
+	return out
+}
+
 func minPromise(id string) *promise.Promise {
 	// the state is not optional (its zero value is not a state at all)
 	return &promise.Promise{Id: id, State: promise.Pending}
@@ -178,7 +220,10 @@ func buildResponse(op string, status int, shape string) *t_api.Response {
 		r := &t_api.SearchPromisesResponse{Status: st, Promises: []*promise.Promise{}}
 		switch shape {
 		case "full":
-			r.Promises = []*promise.Promise{fullPromise("p1", 1), fullPromise("p2", 2)}
+			// one promise of every state
+			r.Promises = []*promise.Promise{fullPromise("p1", 1), fullPromise("p2", 2),
+				statedPromise("p3", 3, promise.Rejected), statedPromise("p4", 4, promise.Canceled),
+				statedPromise("p5", 5, promise.Timedout), statedPromise("p6", 6, promise.Pending)}
 			r.Cursor = &t_api.Cursor[t_api.SearchPromisesRequest]{Next: &t_api.SearchPromisesRequest{
 				Id: "*", States: []promise.State{promise.Pending, promise.Resolved}, Tags: map[string]string{"k": "v"}, Limit: 2, SortId: ptr(int64(2)),
 			}}
@@ -257,7 +302,7 @@ func buildResponse(op string, status int, shape string) *t_api.Response {
 			r.RootPromiseHref = "http://127.0.0.1:8001/promises/p1"
 			if shape == "resume" {
 				r.Task.Mesg.Leaf = "p2"
-				r.LeafPromise = fullPromise("p2", 2)
+				r.LeafPromise = statedPromise("p2", 2, promise.Timedout)
 				r.LeafPromiseHref = "http://127.0.0.1:8001/promises/p2"
 			}
 		}
